@@ -255,4 +255,88 @@ theorem C02_case_machine (cfg : Cfg) (m m' : Module) (hwf : itemsWf false m.item
   unfold DocSim at hdoc
   cases hm : m.modDoc <;> cases hm' : m'.modDoc <;> simp_all
 
+/-! ## rendering in list order -/
+
+/-- a generic entry is a `.. function:: name(a₁ a₂ …)` directive with the generic-invocation warning -/
+theorem C02_render_generic (name doc : Str) (args : List Str) :
+    (Entry.generic name doc args).toElem =
+      .directive (lit "function") [name ++ lit "(" ++ joinWith [' '] args ++ lit ")"] []
+        [.directive (lit "warning") [genericWarning] [] [], .para doc] := by
+  simp [Entry.toElem, signature, lit]
+
+/-- `Documenter.process_docs` renders the entries one by one in list order (a path-named module entry is put in
+front when the file has no module doccomment); only module entries are touched by `nameModule` -/
+theorem C02_rendered_in_order (hc title modName : Str) (docs : List Entry) :
+    (processDocs hc title modName docs).body =
+      ((if docs.any isModule then docs else .module modName [] :: docs).map (nameModule modName)).map Entry.toElem ∧
+    ∀ e, isModule e = false → nameModule modName e = e := by
+  refine ⟨rfl, ?_⟩
+  intro e he
+  cases e <;> first | rfl | simp [isModule] at he
+
+/-! ## non-vacuity -/
+
+example : ∃ st, aggregate {} exModule.events = .ok st ∧ st.documented = exModule.entries {} ∧ st.errors = 0 :=
+  C02_refines exModule (by decide)
+
+/-- an undocumented function whose body holds an undocumented option and a plain command -/
+example : ((Item.block none (mkCall "FUNCTION" ["f", "x"])
+      [.cmd none (mkCall "option" ["O", "help"]), .cmd none (mkCall "message" ["hi"])]
+      (mkCall "endfunction" [])).spec {} .none).top =
+    [.func false (lit "f") [] [lit "x"] false, .opt (lit "O") [] (lit "help") none] := by
+  rw [C02_function .none none _ _ _ (by decide)]
+  decide
+
+/-- a class with one member, one attribute and a documented `message` in between -/
+def exClass : Item :=
+  .block none (mkCall "cpp_class" ["K"])
+    [ .decl none (mkCall "cpp_member" ["go", "K", "int"]) (mkCall "function" ["_go", "self", "n"])
+        [.cmd none (mkCall "cmake_parse_arguments" ["A", "", "", ""])] (mkCall "endfunction" []),
+      .cmd (some (mkDoc "" ["Say."])) (mkCall "MESSAGE" ["hi", "there"]),
+      .cmd none (mkCall "cpp_attr" ["K", "color", "red"]) ]
+    (mkCall "cpp_end_class" [])
+
+example : (exClass.spec {} .none).top =
+    [ .cls (lit "K") [] [] []
+        [] [{ name := lit "go", doc := [], parentClass := lit "K", paramTypes := [lit "int"], params := [lit "n"],
+              isCtor := false, isMacro := false }]
+        [{ name := lit "color", doc := [], parentClass := lit "K", dflt := some (lit "red") }],
+      .generic (lit "message") (docTextOf (some (mkDoc "" ["Say."]))) [lit "hi", lit "there"] ] := by
+  rw [exClass, C02_class .none none _ _ _ (by decide)]
+  decide
+
+example : (Item.decl none (mkCall "cpp_member" ["go", "K", "int"]) (mkCall "macro" ["_go", "self", "n"]) []
+      (mkCall "endmacro" [])).spec {} .shown =
+    { members := [{ name := lit "go", doc := [], parentClass := lit "K", paramTypes := [lit "int"],
+                    params := [lit "n"], isCtor := false, isMacro := true }] } := by
+  rw [C02_member none _ _ _ _ (by decide)]; rfl
+
+/-- the same function written in another letter case, with other blanks and with comments between the tokens -/
+def exPlain : List Item :=
+  [ .block none (mkCall "function" ["f", "x"]) [.cmd none (mkCall "option" ["O", "help"])] (mkCall "endfunction" []) ]
+
+def exRespelt : List Item :=
+  [ .block none (mkCall "FuncTion" ["f", "x"]) [.cmd none (mkCall "OPTION" ["O", "help"])] (mkCall "ENDFUNCTION" []) ]
+
+def exCommented : List Item :=
+  [ .block none
+      { pre := [.lineComment (lit " function(g)") (some false), .nl true], name := lit "FUNCTION", sp := 2, close := [.tabs 1],
+        args := [.tok [.bracketComment 1 (lit " option(P \"h\") ")] (.bare (lit "f")),
+                 .tok [.nl false, .lineComment (lit "[[[ not a doccomment") (some false)] (.bare (lit "x"))] }
+      [.cmd none (mkCall "option" ["O", "help"])]
+      { pre := [.nl false], name := lit "endfunction", sp := 0, args := [], close := [.bracketComment 0 (lit "x")] } ]
+
+example : SameUpToCase exPlain exRespelt := by
+  simp [SameUpToCase, exPlain, exRespelt, itemsRel, Item.Rel, Call.CaseEq, Call.recase, mkCall]
+  decide
+
+example : SameUpToLayout exPlain exCommented := by
+  simp [SameUpToLayout, exPlain, exCommented, itemsRel, Item.Rel, Call.Sim, DocSim, mkCall]
+  decide
+
+example : itemsSpec {} .none exPlain = itemsSpec {} .none exCommented :=
+  C02_layout {} .none _ _ (by
+    simp [SameUpToLayout, exPlain, exCommented, itemsRel, Item.Rel, Call.Sim, DocSim, mkCall]
+    decide)
+
 end Cminx
